@@ -208,7 +208,7 @@ MANIFEST = dict(
           "(C05_vchain_exact, C05_vchain_pattern, and C05_vchain_placed for any pairwise-distinct placement); with any number of targets all of them flip iff the controls are all 1 (C05_vchain_multi_target); relative-phase mode = that permutation "
           "times a +-1 diagonal (C05_vchain_relphase); (ii) LinearMcx with k>=6 controls and every control pattern: the model's four alternating "
           "V-chains on their exact qubit lists are the exact MCX, borrowed ancilla restored for every input state (C05_linear_mcx, via Lemma 9 "
-          "C05_lemma9), extended to every k >= 1 including the small-k dispatch on single mcx gates (C05_linear_mcx_all); the action_only variant equals the exact gate up to an invertible circuit on the control qubits only (C05_linear_mcx_action_only); (iii) majority: the degree list is translated from qclib/gates/majority.py on every run and proved, for all n and all inputs, "
+          "C05_lemma9), extended to every k >= 1 including the small-k dispatch on single mcx gates (C05_linear_mcx_all); the action_only variant equals the exact gate up to an invertible circuit on the control qubits only (C05_linear_mcx_action_only); every statement transfers to any placement on distinct qubits by the general placement theorem (C05_placed_any; C05_vchain_multi_placed is the multi-target instance); (iii) majority: the degree list is translated from qclib/gates/majority.py on every run and proved, for all n and all inputs, "
           "to flip the target iff at least half of the controls are 1 (C05_majority, C05_majority_degrees). Tie: gate-by-gate comparison, inside Coq, of the "
           "models with the flattened definitions for k up to 16/48 (vchain: all flags, 1-3 targets, patterns) and 24/64 (LinearMcx) - instances of >100 qubits "
           "that no simulator reaches; translated degree list executed against CPython for n<=64/128. Direct evaluation by random-state evolution supplies replays. "
